@@ -175,7 +175,8 @@ class LoopMachine(Machine):
                     cur.append(s2)
             if len(cur) > 1:
                 cur = [x[0] for x in self.merge([(c, None) for c in cur])]
-            if len(cur) + len(exits) > MAX_LOOP_STATES:
+            if len(cur) + len(exits) > getattr(self, 'max_loop_states', MAX_LOOP_STATES):
+                if DEBUG: print("loop states", self.fn, it, len(cur), len(exits))
                 raise Undecided()
             if not cur:
                 break
